@@ -162,7 +162,7 @@ PROPS["C17"] = {"theorems": [("GdslModel.Props.C17", "G.Conc." + t) for t in ["d
 
 PROPS["C15"] = {"theorems": [("GdslModel.Props.C15", "G.Sync." + t) for t in ["di_single_refines", "un_single_refines", "di_run_eq_plain", "un_run_eq_plain", "query_refines", "iter_next_refines"]],
     "oracles": ["c15"],
-    "rule": "every generated single-threaded program (edge histories with random handle provenance, all search/cycle/ordering configurations with callbacks and filters, container histories, scc, DOT, serde round trips, comparisons) is run on digraph and sync_digraph resp. ungraph and sync_ungraph; the two implementation streams are compared line by line (container-order-dependent results as sets), and each stream is compared with the model; histories with two live node objects of one key and ownership histories (the executor holds exactly the handles the program names; traversals whose closure drops the last owner) and priority-first traversals over node values the closure changes are compared between the two implementations only; distinct_nontrivial = number of programs.",
+    "rule": "every generated single-threaded program (edge histories with random handle provenance, all search/cycle/ordering configurations with callbacks and filters, container histories, scc, DOT, serde round trips, comparisons) is run on digraph and sync_digraph resp. ungraph and sync_ungraph; the two implementation streams are compared line by line (container-order-dependent results as sets), and each stream is compared with the model; histories with two live node objects of one key and ownership histories (the executor holds exactly the handles the program names; traversals whose closure drops the last owner) priority-first traversals over node values the closure changes, and edge loops whose body mutates next to a suspended second iterator are compared between the two implementations only; distinct_nontrivial = number of programs.",
     "exhaustive": False,
     "level_text": "Machine-checked proof (Lean 4) that every lock program of the sync flavours (the four mutators with the mutation mutex, queries, the iterator step), run alone from any store, never blocks on a lock it holds itself and computes exactly the plain flavour's function (same final store, same return value), lifted to whole call sequences; the iterator step holds no lock when it returns. Traversals of the sync flavours written as lock programs (bfs/dfs search, preorder: one iterator step after the other) are proved to return, run alone, exactly what the static traversal of the plain model returns on the same lists, without blocking and without touching the store; the serialised document depends on the container's iteration order only through a permutation of its two lists. Everything else above the edge operations and the iterator step (containers, scc, serde, macros) is one model for both members of a pair. The tie to the code is a direct differential of the two implementations on every generated program (no model involved) plus the model correspondence of each; API present in only one member of a pair (Graph::with_capacity, to_dot_with_attr / sizeof of one flavour) is outside 'calls common to both'.",
     "level_note": CORR_NOTE + " The lock programs' acquisition points are validated against the real code by the C17 scheduler correspondence.",
@@ -170,7 +170,7 @@ PROPS["C15"] = {"theorems": [("GdslModel.Props.C15", "G.Sync." + t) for t in ["d
     "design_ref": "DESIGN.md section 7, C15"}
 
 PROPS["C20"] = {"theorems": [("GdslModel.Props.C20", "G.Live." + t) for t in ["iter_yield_exists", "search_yield_exists", "order_yield_exists", "iter_terminates", "search_eq_static", "order_eq_static", "sync_iter_holds_nothing"]], "oracles": ["c20", "mirror"],
-    "rule": "one case = a fresh small graph (all nodes also in a container), one loop (edge iterator out/in/adj; bfs, dfs, pfs-min, pfs-max, preorder, postorder; plain and transposed) whose body / closure runs a script: one operation (connect, try_connect, disconnect, isolate, is_connected, nested bfs, container insert/remove) at one step of the loop - every combination on 2-node graphs (every 6th in the quick tier), scripts that add edges for a bounded number of steps, and random scripts on graphs up to 7 nodes; rewiring closures on 3-node graphs; mutations the closure hands to another thread and waits for (sync flavours); plain loops driven by a for statement and by Iterator::for_each; ownership histories in which a traversal's closure takes a member out of the container that is its only owner, isolates it and drops it; all four flavours with the lock hook on. distinct_nontrivial = number of cases.",
+    "rule": "one case = a fresh small graph (all nodes also in a container), one loop (edge iterator out/in/adj; bfs, dfs, pfs-min, pfs-max, preorder, postorder; plain and transposed) whose body / closure runs a script: one operation (connect, try_connect, disconnect, isolate, is_connected, nested bfs, container insert/remove) at one step of the loop - every combination on 2-node graphs (every 6th in the quick tier), scripts that add edges for a bounded number of steps, and random scripts on graphs up to 7 nodes; rewiring closures on 3-node graphs; mutations the closure hands to another thread and waits for (sync flavours); plain loops driven by a for statement and by Iterator::for_each, each next to a second iterator over the same list that is stepped once (or sent past the end with nth) before the loop and drained after it; ownership histories in which a traversal's closure takes a member out of the container that is its only owner, isolates it and drops it; all four flavours with the lock hook on. distinct_nontrivial = number of cases.",
     "exhaustive": False,
     "level_text": "Machine-checked proof (Lean 4) about the live-loop model (iterators keep only a position and re-read the live list on every step; traversal loops thread an arbitrary program state through every call of the closure, which may connect, disconnect, isolate, touch containers or run nested searches): every edge handed out by an iterator or to a traversal closure is an entry of its source's list in the state at that moment; an edge loop ends within len - pos + 1 steps once the body stops lengthening the list; a closure that does not touch the graph sees exactly the static traversal of C04-C10 (simulation); an iterator step of the sync flavours returns holding no lock, so the closure can take any lock (no self-deadlock), and the plain model has no borrow state between steps. Traversals under mutation terminate as well: with a finite node universe, once the closure stops lengthening lists every search and ordering ends within an explicit fuel bound (search_terminates, *_terminates_from, *_terminates_eventually). Tied to the four flavours by exact correspondence of yielded edges, script results and final graphs: every (graph, loop kind, root, step, operation) combination on 2-node graphs (sampled in quick), bounded edge-adding scripts, random scripts; an oracle re-checks on the real lists that each yielded edge exists when yielded; panics and re-entrant lock requests (lock hook) are failures.",
     "level_note": CORR_NOTE + " Runtime behaviour outside the model: user Clone/Drop/Display impls of payloads that themselves touch the graph while a guard is alive.",
